@@ -18,6 +18,8 @@ RECORDERS = [
     ("tok-rev", lambda s, q: ["tok-record", "rev", s, 9, 400 if q else 1500]),
     ("num-fin", lambda s, q: ["num-record", "fin", s, 19, 60 if q else 300, 0]),
     ("num-rec", lambda s, q: ["num-record", "rec", s, 13, 60 if q else 300, 0]),
+    ("num-fin-big", lambda s, q: ["num-record", "fin", s + 1, 19, 30 if q else 120, 1]),
+    ("num-rec-big", lambda s, q: ["num-record", "rec", s + 1, 26, 30 if q else 120, 1]),
     ("ind", lambda s, q: ["ind-record", s, 36, 40 if q else 200, 1]),
     ("convert", lambda s, q: ["convert-record", s, 6, 60 if q else 300]),
 ]
@@ -33,7 +35,7 @@ def transcripts(chk, builds, wd, env, quick, recorders=RECORDERS):
             a = mk(chk.seed, quick)
             e = dict(os.environ)
             e.update(env)
-            r = subprocess.run([yv] + [str(x) for x in a[:1]] + [str(x) for x in a[1:]] + [f] if name != "num-fin" and name != "num-rec" else
+            r = subprocess.run([yv] + [str(x) for x in a[:1]] + [str(x) for x in a[1:]] + [f] if not name.startswith("num-") else
                                [yv] + [str(x) for x in a] + [f], env=e, stdout=subprocess.PIPE, stderr=subprocess.PIPE, text=True, timeout=1800)
             if r.returncode != 0:
                 chk.finding("%s:%s:crash" % (tag, name), {"stage": "record", "stderr": r.stderr[-1500:], "rc": r.returncode})
